@@ -750,6 +750,6 @@ func main() {
 	hx.Main(map[string]hx.Area{
 		"val": &guard{Area: valArea{}}, "parse": &guard{Area: parseArea{}}, "as": &guard{Area: asArea{}},
 		"txtfn": &guard{Area: txtArea{}}, "float": &guard{Area: floatArea{}}, "exp": &guard{Area: expArea{}},
-		"misc": &guard{Area: miscArea{}},
+		"misc": &guard{Area: miscArea{}}, "fltm": &guard{Area: fltmArea{}},
 	})
 }
